@@ -386,6 +386,43 @@ def r9_typer_visit(run, F):
     run.ob("R9-TYPER-VISITS", "no Autocoerce before the typer", not bad, "src/alpha", "Expression::Autocoerce constructed by a stage that runs before the typer: %s" % bad[:3])
 
 
+RESTRICTING_ADAPTORS = ("take_while", "skip_while", "take", "skip", "filter", "step_by", "nth", "last", "next", "next_back", "map_while", "filter_map")
+
+
+def r10_assignment(run, F):
+    """The value of an assignment is unified with the assignee for every shape of the left-hand side: with the base
+    through the type rebuilt from the steps, and with the *last* member step whatever follows or precedes it."""
+    b = F.body("alpha::typer::{Reference}::analyze_assignment")
+    ps = [c for c in hirq.calls(b["hir"]) if hirq.callee(c) == "alpha::typer::Typer::put_symbol"]
+    run.require(len(ps) == 2, "analyze_assignment: expected two put_symbol calls (base, member), found %d" % len(ps))
+    ps.sort(key=lambda c: c["l"])
+    o_base_t = origins.origins(b["hir"], ps[0]["a"][1], b.get("params", ()))
+    run.ob("R10-ASSIGNMENT-CHECKED", "base", ("call", "alpha::typer::build_type_of_reference") in o_base_t, F.where(b, ps[0]),
+           "the base symbol is unified with the type rebuilt from the value type and the steps (build_type_of_reference)")
+    o_mem = origins.origins(b["hir"], ps[1]["a"][0], b.get("params", ()))
+    calls = sorted(x[1].split("::")[-1] for x in o_mem if x[0] == "call" and ("iter::Iterator::" in x[1] or "slice::" in x[1]))
+    restricting = [c for c in calls if c in RESTRICTING_ADAPTORS]
+    ok = ("call", "alpha::common::ReferenceStep::get_member") in o_mem and ("field", "steps") in o_mem and \
+        "rev" in calls and not restricting
+    run.ob("R10-ASSIGNMENT-CHECKED", "member search", ok, F.where(b, ps[1]),
+           "the member whose type is checked is the last Member step among ALL steps (iter().rev().find_map(get_member)); an adaptor that "
+           "cuts the search short leaves `s.m[i] = v` unchecked: adaptors %s, restricting %s" % (calls, restricting), sample={"adaptors": calls})
+    o_mt = origins.origins(b["hir"], ps[1]["a"][1], b.get("params", ()))
+    run.ob("R10-ASSIGNMENT-CHECKED", "member type", ("call", "alpha::typer::build_type_of_reference") in o_mt, F.where(b, ps[1]),
+           "the member is unified with the type rebuilt from the value type and the steps after the member")
+    # the outcome of both unifications decides the reference (Err -> poisoned base)
+    used = False
+    for path, n in hirq.constructs(b["hir"]):
+        if hirq.short(path).endswith("common::Reference") or hirq.short(path) == "Reference":
+            if n.get("k") == "Struct":
+                for f in n.get("fields", []):
+                    if f.get("name") == "base":
+                        o = origins.origins(b["hir"], f["e"], b.get("params", ()))
+                        if ("call", "alpha::typer::Typer::put_symbol") in o:
+                            used = True
+    run.ob("R10-ASSIGNMENT-CHECKED", "conflict poisons the reference", used, F.where(b), "the result of put_symbol decides the base of the returned reference")
+
+
 def check(run):
     F = run.facts("B")
     r1_tables(run, F)
@@ -397,9 +434,10 @@ def check(run):
     r7_visit(run, F)
     r8_structural(run, F)
     r9_typer_visit(run, F)
+    r10_assignment(run, F)
     if run.tier == "thorough":
         FA = run.facts("A")
         run.key_prefix = "cfgA:"
-        for fn in (r1_tables, r2_wiring, r3_r5_relations, r4_calls, r5_unification, r6_codes, r7_visit, r8_structural, r9_typer_visit):
+        for fn in (r1_tables, r2_wiring, r3_r5_relations, r4_calls, r5_unification, r6_codes, r7_visit, r8_structural, r9_typer_visit, r10_assignment):
             fn(run, FA)
         run.key_prefix = ""
